@@ -77,7 +77,8 @@ def _memory_generate_verilog(name, memory, namespace, add_data_file):
         content = ""
         formatter = f"{{:0{int(memory.width/4)}x}}\n"
         for d in memory.init:
-            content += formatter.format(d)
+            # Negative values are written as two's complement words ($readmemh only accepts hexadecimal digits).
+            content += formatter.format(d & (2**memory.width - 1))
         memory_filename = add_data_file(f"{name}_{_get_name(memory)}.init", content)
 
         r += "initial begin\n"
